@@ -286,6 +286,32 @@ def rule_A4(ctx) -> None:
             ctx.refuted("A4", "close:sets-closed-first", "order", mod.loc(fn), "the flush is scheduled before `_closed` is set")
 
 
+def rule_A11(ctx) -> None:
+    """the channel is closed only through close(): it is the one place that pairs `_closed = True` with the flush that wakes
+    the receivers no item is left for - any other function that sets `_closed` itself leaves them blocked"""
+    mod = ctx.repo.mod(M_CHANNEL)
+    writers = []
+    for mname, fns in mod.methods(CLS).items():
+        for fn in fns:
+            for n in ast.walk(fn):
+                tgts = n.targets if isinstance(n, ast.Assign) else [n.target] if isinstance(n, (ast.AugAssign, ast.AnnAssign)) else []
+                for t in tgts:
+                    if _attr_is(t, "_closed"):
+                        writers.append((mname, n))
+                if isinstance(n, ast.Call) and ast.unparse(n.func) in ("setattr", "object.__setattr__") and any(isinstance(a, ast.Constant) and a.value == "_closed" for a in n.args):
+                    writers.append((mname, n))
+    rogue = [(m, n) for m, n in writers if m not in ("__init__", "close")]
+    if rogue:
+        m, n = rogue[0]
+        ctx.refuted("A11", "closed-flag:only-close-sets-it", ",".join(sorted({m for m, _ in rogue})), mod.loc(n),
+                    f"{m}() sets `_closed` itself instead of calling close(): the flush that injects one sentinel per stranded receiver is never scheduled on that route, so receivers "
+                    "blocked beyond the buffered items wait for ever", "two receivers blocked, send_from([x], close=True)")
+    elif not any(m == "close" for m, _ in writers):
+        ctx.inconclusive("A11", "closed-flag:only-close-sets-it", "close() does not set `_closed`", mod.rel)
+    else:
+        ctx.proved("A11", "closed-flag:only-close-sets-it", mod.rel, f"{len(writers)} stores, in __init__ / close only")
+
+
 def rule_A5(ctx) -> None:
     mod = ctx.repo.mod(M_CHANNEL)
     cls = mod.cls(CLS)
@@ -606,7 +632,7 @@ def rule_G6(ctx, rule: str = "G6") -> None:
 
 def run(ctx) -> None:
     for name, fn in (("A1", rule_A1), ("A2", rule_A2), ("A3", rule_A3), ("A4", rule_A4), ("A5", rule_A5), ("A6", rule_A6),
-                     ("A8", rule_A8), ("A9", rule_A9), ("A10", rule_A10), ("G6", lambda c: rule_G6(c, "A7"))):
+                     ("A8", rule_A8), ("A9", rule_A9), ("A10", rule_A10), ("A11", rule_A11), ("G6", lambda c: rule_G6(c, "A7"))):
         ctx.rules_run.append(name)
         fn(ctx)
     ctx.assume("asyncio is single-threaded: code between two awaits is atomic")
